@@ -61,6 +61,11 @@ func unmarshalBitfield(b []byte) (*bitset.BitSet, error) {
 	if err := bitfield.UnmarshalBinary(b); err != nil {
 		return nil, err
 	}
+	// The last word is taken as sent: bits beyond the claimed length would be
+	// reported by NextSet / NextSetMany as pieces the torrent does not have.
+	if i, ok := bitfield.NextSet(bitfield.Len()); ok {
+		return nil, fmt.Errorf("bitfield of %d bits has bit %d set", bitfield.Len(), i)
+	}
 	return bitfield, nil
 }
 
